@@ -47,6 +47,11 @@ def run(prog, rep):
     rep.assumptions += ["production cfg only", "transaction-level rollback is decided by C03-N2"]
     b1(prog, rep)
     c18.i3(prog, rep)      # B2
+    # B2 (cont.): the per-block deposit cache lives in the ephemeral object store; a deposit of a
+    # failed transaction / packet only disappears with its delta if the stored value is a plain
+    # value (no shared handle that a child delta would write through) - rule shared with C03-N3
+    import c03
+    c03.n3(prog, rep, rule="B2")
     b3(prog, rep)
     b4(prog, rep)
 
